@@ -188,3 +188,12 @@ T("ndarray.sum", "out0d|(4,)", lambda a, out: a.sum(out=out), {"a": I("X", (4,))
 T("ndarray.max", "out0d|(4,)", lambda a, out: a.max(out=out), {"a": I("X", (4,)), "out": I("X", (), "zeros")}, inplace=("out",))
 T("ndarray.mean", "out0d|(4,)", lambda a, out: a.mean(out=out), {"a": I("X", (4,)), "out": I("X", (), "zeros")}, inplace=("out",))
 T("np.dot", "out0d|(3,)(3,)", lambda a, b, out: np.dot(a, b, out=out), {"a": I("X", (3,)), "b": I("Y", (3,)), "out": I("X", (), "zeros")}, cls="other", inplace=("out",))
+
+# ---- a quantity-valued start value of a reduction (takes part like an element: convertible on its own) -----------------
+for name in ("sum", "max", "min", "nansum", "nanmax", "nanmin"):
+    T("np." + name, "initial-q|(4,)", (lambda a, q, f=getattr(np, name): f(a, initial=q)), {"a": I("X", (4,)), "q": I("X", ())})
+    T("np." + name, "initial-q,axis0|(2,3)", (lambda a, q, f=getattr(np, name): f(a, axis=0, initial=q)), {"a": I("X", (2, 3)), "q": I("X", ())})
+for name in ("add", "maximum", "minimum", "fmax", "fmin", "hypot"):
+    T("ufunc." + name + ".reduce", "initial-q|(4,)", (lambda a, q, f=getattr(np, name): f.reduce(a, initial=q)), {"a": I("X", (4,)), "q": I("X", ())}, **({"tol": True} if name == "hypot" else {}))
+T("ndarray.sum", "initial-q|(4,)", lambda a, q: a.sum(initial=q), {"a": I("X", (4,)), "q": I("X", ())})
+T("ndarray.max", "initial-q|(4,)", lambda a, q: a.max(initial=q), {"a": I("X", (4,)), "q": I("X", ())})
